@@ -1,6 +1,6 @@
 (* C05 — No-suffix overlapping search reports exactly the longest match per end position. *)
 From DV Require Import Model.Base Model.Nfa Model.BwBuild Model.BwSearch Model.Api Model.Spec
-     Model.Cert Proofs.BwCert Theory.SpecAdequacy Model.Utf8 Model.CwBuild Proofs.Utf8Props Proofs.CwCert.
+     Model.Cert Proofs.BwCert Theory.SpecAdequacy Model.Utf8 Model.CwBuild Proofs.Utf8Props Proofs.CwCert Proofs.TrieInv Proofs.BuiltAutomata.
 Local Open Scope N_scope.
 
 Theorem bw_nosuffix_correct :
@@ -51,3 +51,14 @@ Example c05_hypotheses_met :
   | _ => False
   end.
 Proof. vm_compute. split; reflexivity. Qed.
+
+(* C05 for the byte-wise variant with no certificate hypothesis (builder theorem, see C01) *)
+Theorem bw_nosuffix_correct_for_every_built_automaton :
+  forall (V : Type) (veqb : V -> V -> bool), (forall a b, veqb a b = true <-> a = b) ->
+  forall nfb (pvs : list (list N * V)) (A : bw_automaton V),
+    (forall p v, In (p, v) pvs -> Forall (fun b => b < 256) p) -> 4 * total_len V pvs <= U32_MAX - 1 ->
+    bw_build_with_values V Standard nfb pvs = Ok A ->
+  forall h : list N, Forall (fun b => b < 256) h ->
+    bw_find_overlapping_no_suffix_iter V A h = Ok (spec_nosuffix V pvs h).
+Proof. exact built_nosuffix. Qed.
+Print Assumptions bw_nosuffix_correct_for_every_built_automaton.
